@@ -81,7 +81,7 @@ impl Property for C08 {
             real: &["src/hot_reloading/mod.rs (Answers, HotReloader::reload, hot_reloading_thread)", "src/hot_reloading/dependencies.rs (DepsGraph::visit / topological sort)", "src/hot_reloading/paths.rs", "src/utils/private.rs (Mutex/Condvar wrappers, wait_while)", "src/cache.rs, src/anycache.rs"],
             stub: &["Mutex / Condvar / RwLock (detsim: all wake orders, spurious wake-ups)", "crossbeam-channel and Select (detsim)", "OS scheduler", "Source (in-memory)"],
             assumptions: &["liveness is stated as bounded progress: every call returns within the step budget under a schedule that is fair in its second half; the wait-for graph is reported otherwise", "callers respect the documented precondition (no AssetReadGuard held across hot_reload)"],
-            runs: (16_000, 1_000_000),
+            runs: (120_000, 4_000_000),
         }
     }
     fn generate(&self, g: &mut SplitMix, k: &mut SplitMix, _tier: Tier) -> (Knobs, Value) {
